@@ -162,6 +162,11 @@ def decl_forms(fd, rnd, ctx):
             out.append({"annot": True, "ty": s, "eq": d, "kw": None, "opt": False})
         if d is not None and s[0] in ("inst", "ctor1", "ctorN") and f["t"] in DEFAULT_OK_CLASSES:
             out.append({"annot": True, "ty": s, "eq": None, "kw": d, "opt": opt})
+    if d is None and P.func_spellable(f):
+        # the parameterless function declared `-> Field` / `-> "Field"` (is_function_returning_field)
+        for q in (False, True):
+            out.append({"annot": True, "ty": ("func", f, q), "eq": None, "kw": None, "opt": opt})
+            out.append({"annot": False, "ty": ("func", f, q), "eq": None, "kw": None, "opt": opt})
     for s in fieldy:
         if d is None:
             out.append({"annot": False, "ty": s, "eq": None, "kw": None, "opt": opt})
@@ -395,6 +400,60 @@ def tuple_lattice(ctx, idx0, tier):
     return cases
 
 
+FUNCTION_LATTICE_FIELDS = [
+    {"t": "str", "min": 3}, {"t": "num", "k": "Integer", "s": "Any"}, {"t": "num", "k": "Float", "s": "Positive"},
+    {"t": "bool"}, {"t": "seqeach", "k": "list", "item": {"t": "num", "k": "Integer", "s": "Any"}, "sz": [None, None],
+                    "uniq": False},
+    {"t": "anyof", "fs": [{"t": "num", "k": "Integer", "s": "Any"}, {"t": "none"}]},
+    {"t": "tuple", "items": [{"t": "str"}, {"t": "num", "k": "Integer", "s": "Any"}], "uniq": False},
+]
+
+
+def function_lattice(ctx, idx0, tier):
+    """The function-returning-a-Field spelling (`def F() -> Field`, `-> "Field"`) in EVERY position where typedpy
+    recognises it — annotation, class attribute, argument of Array/Deque/Set/Map/Tuple/AnyOf/OneOf/AllOf[...] — against
+    the Field-instance spelling in the same position (each module also with `from __future__ import annotations`,
+    which turns every return annotation into a string).  Independent of VERIF_SEED."""
+    cases = []
+    X = {"t": "bool"}
+    Y = {"t": "mapany", "sz": [None, None]}
+    b_decl = {"annot": True, "ty": ("name", "int"), "eq": None, "kw": None, "opt": False}
+    mk = lambda annot, ty: {"annot": annot, "ty": ty, "eq": None, "kw": None, "opt": False}
+    for f in FUNCTION_LATTICE_FIELDS:
+        x = Y if f["t"] == "bool" else X
+        hashable = f["t"] in ("str", "num", "bool", "tuple")
+        positions = [("alone", f, lambda a: a),
+                     ("Array", {"t": "seqeach", "k": "list", "item": f, "sz": [None, None], "uniq": False},
+                      lambda a: ("sub", "Array", [a])),
+                     ("Deque", {"t": "seqeach", "k": "deque", "item": f, "sz": [None, None], "uniq": False},
+                      lambda a: ("sub", "Deque", [a])),
+                     ("Array2", {"t": "seqpos", "k": "list", "items": [x, f], "sz": [None, None], "uniq": False,
+                                 "additional": None}, lambda a: ("sub", "Array", [("inst", x), a])),
+                     ("Tuple", {"t": "tuple", "items": [f, x], "uniq": False}, lambda a: ("sub", "Tuple", [a, ("inst", x)])),
+                     ("MapValue", {"t": "mapkv", "kf": {"t": "str"}, "vf": f, "sz": [None, None]},
+                      lambda a: ("sub", "Map", [("fcls", "String"), a])),
+                     ("AnyOf", {"t": "anyof", "fs": [x, f]}, lambda a: ("sub", "AnyOf", [("inst", x), a])),
+                     ("AnyOfNone", {"t": "anyof", "fs": [f, {"t": "none"}]}, lambda a: ("sub", "AnyOf", [a, ("none",)])),
+                     ("OneOf", {"t": "oneof", "fs": [f, x]}, lambda a: ("sub", "OneOf", [a, ("inst", x)])),
+                     ("AllOf", {"t": "allof", "fs": [f]}, lambda a: ("sub", "AllOf", [a]))]
+        if hashable:
+            positions += [("Set", {"t": "set", "imm": False, "item": f, "sz": [None, None]}, lambda a: ("sub", "Set", [a])),
+                          ("MapKey", {"t": "mapkv", "kf": f, "vf": x, "sz": [None, None]},
+                           lambda a: ("sub", "Map", [a, ("inst", x)]))]
+        for pname, sem, wrap in positions:
+            decls = [mk(True, wrap(("inst", f)))]
+            for q in (False, True):
+                decls.append(mk(True, wrap(("func", f, q))))
+                decls.append(mk(False, wrap(("func", f, q))))
+            decls.append(mk(False, wrap(("inst", f))))
+            members = [{"name": "a", "f": sem, "opt": False, "default": None},
+                       {"name": "b", "f": dict(INT_F), "opt": False, "default": None}]
+            variants = [{"decls": [decls[0], b_decl], "changed": None}]
+            variants += [{"decls": [d, b_decl], "changed": 0} for d in decls[1:]]
+            cases.append({"idx": idx0 + len(cases), "members": members, "variants": variants, "lattice": "function-field"})
+    return cases
+
+
 def future_length_lattice(ctx, idx0, tier):
     """Annotations whose stored text has EVERY length around the bound of _evaluate_if_future_annotations (today 50):
     `a: Integer(minimum=10...0)` and `a: t.Optional[Integer(minimum=10...0)]` (not listed in _optional), next to a
@@ -495,7 +554,7 @@ def load_module(workdir, text, ctx, future):
     name = "c13gen_%d_%d" % (os.getpid(), _mod_counter[0])
     path = os.path.join(workdir, name + ".py")
     with open(path, "w") as fh:
-        fh.write(("from __future__ import annotations\n" if future else "") + P.MODULE_IMPORTS + text)
+        fh.write(("from __future__ import annotations\n" if future else "") + P.module_prelude(text) + text)
     spec = importlib.util.spec_from_file_location(name, path)
     mod = importlib.util.module_from_spec(spec)
     mod.__dict__.update(ctx.classes)
@@ -555,7 +614,13 @@ def observe_class(obj, names, candidates, ctx):
             doc = Serializer(inst).serialize()
             # key order of the top-level document follows the order of declaration, which the property
             # does not speak about: compare as a mapping
-            ser = repr(sorted((k, E.reify(v)) for k, v in doc.items())) if isinstance(doc, dict) else repr(E.reify(doc))
+            if isinstance(doc, dict):
+                # ... and a set is serialized as a list in ITERATION order, which is not specified (two equal sets
+                # built separately may iterate differently): such lists are compared as multisets
+                canon = {k: canon_doc(getattr(inst, k, None), v) for k, v in doc.items()}
+                ser = repr(sorted((k, E.reify(v)) for k, v in canon.items()))
+            else:
+                ser = repr(E.reify(doc))
         except Exception as ex:  # noqa
             ser = "serialize-raises:" + E.exn_name(ex)
         # a second way IN: the serialized document deserialized by the same class (first few accepted candidates)
@@ -573,6 +638,24 @@ def observe_class(obj, names, candidates, ctx):
                                                 ("TypeError", "ValueError") else xn)
         out["beh"].append(("ok", state, ser, des))
     return out
+
+
+def canon_doc(value, doc, depth=0):
+    """The serialized document with every list that stands for a set/frozenset VALUE sorted (best effort: walks the
+    stored value and its document in parallel through lists, tuples, deques and dicts)."""
+    import collections
+    if depth > 8:
+        return doc
+    try:
+        if isinstance(value, (set, frozenset)) and isinstance(doc, list):
+            return sorted(doc, key=lambda x: repr(E.reify(x)))
+        if isinstance(value, (list, tuple, collections.deque)) and isinstance(doc, list) and len(value) == len(doc):
+            return [canon_doc(v, d, depth + 1) for v, d in zip(value, doc)]
+        if isinstance(value, dict) and isinstance(doc, dict) and len(value) == len(doc):
+            return {k: canon_doc(v, d, depth + 1) for (k, d), v in zip(doc.items(), value.values())}
+    except Exception:  # noqa
+        pass
+    return doc
 
 
 def gen_candidates(rnd, members, ctx, per_field, accepts=None):
@@ -690,6 +773,16 @@ def union_stat(d):
     return "%s:arity=%d,none=%s,nested=%s,listed=%s" % (s[0], len(leaves), where, nested, d["opt"])
 
 
+def func_sig(d):
+    """Position and return-annotation style of the function-field names in a declaration (None: there are none)."""
+    fs = [n for n in P.walk(d["ty"]) if n[0] == "func"]
+    if not fs:
+        return None
+    where = "alone" if d["ty"][0] == "func" else "in:" + P.top_form(d["ty"])
+    return "%s%s:func[%s]" % ("annot:" if d["annot"] else "assign:", where,
+                              ",".join(sorted({"quoted" if n[2] else "plain" for n in fs})))
+
+
 def falsy(r):
     try:
         return not G.unreify(r)
@@ -723,6 +816,11 @@ def attribute(aspect, detail, d_base, d_var, o_base, o_var, name):
         o_t = o_base if "tuple-single-class" in tb else o_var
         if o_t["def"] == "ok" and o_t["objs"].get(name) == ("defective",):
             return K_TUPLE
+    if func_sig(d_base) or func_sig(d_var):
+        # a parameterless function declared `-> Field`: what matters is where it stands and how its return type is written
+        side = lambda d: func_sig(d) or (("annot:" if d["annot"] else "assign:") + P.top_form(d["ty"]))
+        a, b = sorted([side(d_base), side(d_var)])
+        return "C13/%s/function-field/%s~%s" % (aspect, a, b)
     if aspect == "required" and (union_stat(d_base) or union_stat(d_var)):
         # which fields a typing Union/Optional marks optional depends on the SHAPE of the union only
         side = lambda d: union_stat(d) or (("annot:" if d["annot"] else "assign:") + P.top_form(d["ty"])
@@ -819,6 +917,9 @@ def run_class_cases(rep, cases, ctx, workdir, rnd, per_field):
                     elif long_names and obs[0][vi]["def"] != o_f["def"] and \
                             all(n not in (o_f.get("fields") or []) for n in long_names):
                         key = K_FUTURE
+                    elif any(func_sig(d) for d in v["decls"]):
+                        key = "C13/future-annotations/%s/function-field/%s" % (
+                            aspect, "+".join(sorted({func_sig(d) for d in v["decls"] if func_sig(d)})))
                     else:
                         key = "C13/future-annotations/%s/%s" % (aspect, "+".join(decl_sig(d) for d in v["decls"]))
                     report(rep, key, aspect, detail, c, vi, vi, False, True)
@@ -863,7 +964,7 @@ def report(rep, key, aspect, detail, c, v1, v2, semantic, future):
     rep.finding(key, what + "\n" + src1 + ("\n" + src2 if v1 != v2 else ""),
                 {"members": c["members"], "decls_a": c["variants"][v1]["decls"], "decls_b": c["variants"][v2]["decls"],
                  "future_b": future, "semantic": semantic, "candidates": c.get("cands"), "aspect": aspect,
-                 "python": P.MODULE_IMPORTS + src1 + "\n" + src2 + "\n"})
+                 "python": P.module_prelude(src1 + src2) + src1 + "\n" + src2 + "\n"})
 
 
 # ----------------------------------------------------------------------------- correspondence (in Coq)
@@ -884,7 +985,8 @@ def corrupt_spelling(rnd, s):
              ("typing", "List", [("none",)]), ("pep585", "list", [("none",)]), ("struct", "Inner"),
              ("pep585", "dict", [("name", "str")]), ("or", ("fcls", "Integer"), ("pep585", "list", [("name", "int")])),
              ("sub", "Set", [("fcls", "Array")]), ("ctor1", "Set", ("fcls", "Map"), P.NO_SZ, False),
-             ("sub", "Map", [("fcls", "Array"), ("fcls", "Integer")])]
+             ("sub", "Map", [("fcls", "Array"), ("fcls", "Integer")]),
+             ("func", dict(INT_F), False), ("func", {"t": "str", "min": 2}, True)]
     nodes = list(P.walk(s))
     target = rnd.choice(nodes)
     repl = rnd.choice(wrong)
@@ -913,11 +1015,16 @@ _NS = {}
 
 
 def _eval_ns(ctx):
-    if id(ctx) not in _NS:
+    key = id(ctx)
+    if key not in _NS:
         ns = dict(ctx.ns)
-        exec(P.MODULE_IMPORTS, ns)
-        _NS[id(ctx)] = ns
-    return _NS[id(ctx)]
+        exec(P.module_prelude(""), ns)
+        _NS[key] = [0, ns]
+    ent = _NS[key]
+    if ent[0] != P.n_func_defs():
+        exec(P.func_prelude_since(ent[0]), ent[1])
+        ent[0] = P.n_func_defs()
+    return ent[1]
 
 
 def union_kept(s, ctx):
@@ -1037,7 +1144,11 @@ def run_correspondence(rep, spell_cases, decl_cases, ctx, workdir, fut_cases=())
     for dc, o in zip(fut_cases, fobs):
         if skip(o):
             continue
-        fitems.append(("f", "{| fc_len := %s; fc_case := %s |}" % (E.zlit(stored_len(dc)), emit_dcase(dc, o)), (dc, o)))
+        P.FUTURE_MODULE[0] = True       # every `-> Field` of the module is a string there
+        try:
+            fitems.append(("f", "{| fc_len := %s; fc_case := %s |}" % (E.zlit(stored_len(dc)), emit_dcase(dc, o)), (dc, o)))
+        finally:
+            P.FUTURE_MODULE[0] = False
     per = 250
     index = []
     for kind, its in (("s", items), ("d", ditems), ("f", fitems)):
@@ -1093,6 +1204,7 @@ def run(rep, tier):
         cases += optional_lattice(ctx, len(cases), tier)
         cases += default_lattice(ctx, len(cases), tier)
         cases += mutable_default_lattice(ctx, len(cases), tier)
+        cases += function_lattice(ctx, len(cases), tier)
         cases += future_length_lattice(ctx, len(cases), tier)
         cases += tuple_lattice(ctx, len(cases), tier)
         batch = 35
@@ -1110,6 +1222,11 @@ def run(rep, tier):
         alias_cases = AL.lattice_cases(tier)
         for _ in range(60 if tier == "quick" else 600):
             ac = AL.random_case(rnd, gen_semantic_field, ctx, max_depth)
+            if ac:
+                alias_cases.append(ac)
+        alias_cases += AL.factory_lattice(tier)
+        for _ in range(30 if tier == "quick" else 300):
+            ac = AL.random_factory_case(rnd, gen_semantic_field, ctx, max_depth)
             if ac:
                 alias_cases.append(ac)
         AL.run_cases(rep, alias_cases, ctx, rnd, per_field, sys.modules[__name__])
@@ -1276,6 +1393,9 @@ def run(rep, tier):
              "to a name N and 2-5 classes using N alone / under another field name / with a default / as an operand of |, "
              "Optional, Union, list, Array, AnyOf, OneOf, Tuple, Map (lattice: every alias form x every use between two "
              "plain uses; plus random), each class observed after every step and compared with the written-out module; "
+             "factory modules = def make(T): class S: a: T; b: <use of T>, called 2-4 times with different bindings "
+             "(lattice: 4 binding sequences x 11 uses; plus random); function fields = `def Fn() -> Field` / `-> \"Field\"` "
+             "as annotation, attribute and argument of Cls[...] (random + lattice of 7 fields x 10-12 positions); "
              "distinct = distinct spelling "
              "signatures" % max_depth)
 
@@ -1351,7 +1471,7 @@ def _tuplify(x):
 def _is_plain_list(x):
     """JSON turned tuples into lists: a tagged node starts with a tag string followed by non-string payload or
     is a known tag; argument lists contain nodes (lists) only."""
-    tags = {"alias", "lit", "name", "none", "bare", "typing", "pep585", "optional", "union", "or", "fcls", "inst", "struct", "sub",
+    tags = {"alias", "lit", "func", "name", "none", "bare", "typing", "pep585", "optional", "union", "or", "fcls", "inst", "struct", "sub",
             "ctor1", "ctorN", "int", "flt", "dec", "str", "bool", "list", "tuple", "deque", "set", "dict", "enum",
             "struct", "other"}
     return x[0] not in tags
